@@ -148,6 +148,14 @@ func vxH07(target int, flushop int, variant int, hold bool, saved bool) {
 			for _, c := range kit.ops.calls {
 				if c.tag == vxTagA {
 					vxAssert(c.seq < nc.wseq[pf], "cancelled-request-not-handed-to-implementation-after-Rflush")
+					// the implementation already holds the request (executing, or parked to be answered later): the
+					// server cannot cancel it behind the implementation's back. Without a reply before the Rflush
+					// the implementation must have been told through its FlushOp (and have agreed by calling Flush).
+					told := false
+					for _, r := range kit.ops.flushed {
+						told = told || r == c.req
+					}
+					vxAssert(told, "request-held-by-the-implementation-is-cancelled-only-through-its-FlushOp")
 				}
 			}
 			before := len(nc.writes)
